@@ -626,6 +626,13 @@ impl<W: Write + io::Seek> ZipWriter<W> {
                 "Not writing to extra field",
             )));
         }
+        // A failed `switch_to` (e.g. a refused compression level) leaves the writer closed.
+        if self.inner.is_closed() {
+            return Err(ZipError::Io(io::Error::new(
+                io::ErrorKind::BrokenPipe,
+                "ZipWriter was already closed",
+            )));
+        }
         let file = self.files.last_mut().unwrap();
 
         validate_extra_data(file)?;
